@@ -36,6 +36,8 @@ def worktree(name, patch=None):
         shutil.copy("/repo/Cargo.lock", os.path.join(d, "Cargo.lock"))   # untracked in the repository; pins the offline dependency set
     if patch:
         rc, out = sh(["git", "apply", patch], cwd=d)
+        if rc != 0:   # /repo has moved on (fix: commits) since the change was written: fall back to a 3-way merge
+            rc, out = sh(["git", "apply", "-3", patch], cwd=d)
         assert rc == 0, "patch does not apply: " + out
     return d
 
